@@ -103,7 +103,9 @@ def main(argv):
             st = selftest.ensure(ctx)
             out.coverage['translator_validation'] = {'cases': st['cases'], 'mismatches': len(st['mismatches'])}
             if st['mismatches']:
-                raise Inconclusive('engine M disagrees with the natively compiled code on the translator-validation corpus: ' + ' || '.join(st['mismatches'])[:1200])
+                # never a pass (exit 2 at best); the check still runs: a violation it finds counts only after native
+                # replay / Kani concrete playback against the real code, which does not depend on the translator
+                out.inconclusive.append('engine M disagrees with the natively compiled code on the translator-validation corpus: ' + ' || '.join(st['mismatches'])[:1200])
         mod.run(ctx, out)
     except Inconclusive as e:
         out.inconclusive.append(str(e))
